@@ -101,6 +101,19 @@ def section_multi():
                     for o in ords:
                         if not close(full(pb.idx, sc[s], o), c[0] ** o[0] * c[1] ** o[1] * ref[(s, o)]):
                             fail("multi", "scaling perturbation k by c_k does not multiply order n by prod c_k^n_k", layout=li, fmt=fmt, output=NAMES[s], order=o)
+            # weak perturbations: scale factors 2^-20, 2^-21 (exact in binary floating point, so every order must scale exactly); the law is homogeneous,
+            # so it is compared RELATIVE to the size of each order - an absolute threshold anywhere inside the recursion breaks it from the order whose
+            # magnitude falls below that threshold, while the perturbations themselves stay far above the documented `atol` for zero input blocks
+            cases += 1
+            cw = (2.0 ** -20, 2.0 ** -21) if herm else (2.0 ** -20, 1j * 2.0 ** -21)
+            wk = run(pb, ham={z: conv(H0), (1, 0): conv(cw[0] * H1), (0, 1): conv(cw[1] * H2)}, **kw)
+            for s in range(3):
+                for o in ords:
+                    want = cw[0] ** o[0] * cw[1] ** o[1] * ref[(s, o)]
+                    got = full(pb.idx, wk[s], o)
+                    if np.abs(got - want).max(initial=0) > 1e-9 * np.abs(want).max(initial=0):
+                        fail("multi", "scaling by small factors (2^-20, 2^-21) does not multiply order n by prod c_k^n_k relative to the size of that order",
+                             layout=li, fmt=fmt, output=NAMES[s], order=o, relative_error=float(np.abs(got - want).max() / max(np.abs(want).max(), 1e-300)))
             # merge
             cases += 1
             mg = run(pb, ham={(0,): conv(H0), (1,): conv(H1 + H2)}, **kw)
@@ -389,6 +402,37 @@ def section_covariance_implicit():
                 got = dense_of(oth[s][(0, 0, o)], (k + kb, k + kb))
                 if not close(got, want, 1e-8):
                     fail("covariance", "implicit mode: result for a direct sum is not the direct sum of the results", output=NAMES[s], order=o, cplx=cplx, err=float(np.abs(got - want).max()))
+
+    # integer-valued tight-binding H_0 (integer on-site energies and hoppings, every diagonal entry stored) given with an INTEGER dtype: the explicit levels
+    # have non-integer energies, so E - H_0 must be formed in floating point; scale by 1.0 / 2 / 0.5, shift by 0.5 and -2.25, all against the float reference
+    n, k = 10, 2
+    onsite = np.array([1, -2, 3, 5, 2, -1, 4, 1, -3, 2])
+    H0i = np.diag(onsite) + np.diag(np.ones(n - 1, dtype=int), 1) + np.diag(np.ones(n - 1, dtype=int), -1)
+    r = np.random.default_rng(123)
+    M = r.normal(size=(n, n))
+    H1 = (M + M.T) / 2
+    w, v = np.linalg.eigh(H0i.astype(float))
+    vA = v[:, :k]
+    base = block_diagonalize([sparse.csr_array(H0i.astype(float)), sparse.csr_array(H1)], subspace_eigenvectors=[vA])
+    refi = {(s, o): dense_of(base[s][(0, 0, o)], (k, k)) for s in range(3) for o in range(N + 1)}
+    variants = [("int64 csr", sparse.csr_array(H0i.astype(np.int64)), 1.0, 0.0), ("int32 csr", sparse.csr_array(H0i.astype(np.int32)), 1.0, 0.0),
+                ("int64 csc", sparse.csc_array(H0i.astype(np.int64)), 1.0, 0.0), ("int64 dense", H0i.astype(np.int64), 1.0, 0.0),
+                ("2 * int64", sparse.csr_array(2 * H0i.astype(np.int64)), 2.0, 0.0), ("0.5 * float", sparse.csr_array(0.5 * H0i), 0.5, 0.0),
+                ("shift 0.5", sparse.csr_array(H0i + 0.5 * np.eye(n)), 1.0, 0.5), ("shift -2.25", sparse.csr_array(H0i - 2.25 * np.eye(n)), 1.0, -2.25),
+                ("int shift 3", sparse.csr_array((H0i + 3 * np.eye(n, dtype=int)).astype(np.int64)), 1.0, 3.0)]
+    for label, h0v, sc, sh in variants:
+        cases += 1
+        try:
+            oth = block_diagonalize([h0v, sparse.csr_array(sc * H1)], subspace_eigenvectors=[vA])
+            for s in range(3):
+                for o in range(N + 1):
+                    want = (sc if s == 0 else 1.0) * refi[(s, o)] + (sh * np.eye(k) if (s == 0 and o == 0) else 0)
+                    got = dense_of(oth[s][(0, 0, o)], (k, k))
+                    if not close(got, want, 1e-8):
+                        fail("covariance", "implicit mode: integer-valued H_0 - the result depends on the dtype / is not covariant under scale and shift", variant=label,
+                             output=NAMES[s], order=o, err=float(np.abs(got - want).max()))
+        except Exception as e:  # noqa: BLE001
+            fail("covariance", "implicit mode: integer-valued H_0 rejected", variant=label, error=repr(e))
 
 
 def herm_rand(rng, n, cplx=True):
